@@ -321,11 +321,11 @@ OBLIGATIONS = [
     Ob('defer_order', defer_order,
        sym=dict(e0=R(0, 5), e1=R(0, 5), e2=R(0, 5), e3=R(0, 5), e4=R(0, 5), e5=R(0, 5), e6=R(0, 5)),
        shards=dict(server=[True], rb=[0, 1, 2], nev=[5], e0=[0, 2, 4], e1=[0, 2, 3, 4], e5=[0], e6=[0]),
-       thorough_shards=dict(server=[True, False], rb=[0, 1, 2], nev=[7], e0=[0, 2, 4], e1=[0, 2, 3, 4], e2=[0, 2, 3, 4, 5]),
+       thorough_shards=dict(server=[True, False], rb=[0, 1, 2], nev=[6], e0=[0, 2, 4], e1=[0, 2, 3, 4], e2=[0, 2, 3, 4, 5], e6=[0]),
        timeout=250, thorough_timeout=900,
        functions=[C.SSHConnection.send_packet, C.SSHConnection._send_deferred_packets, C.SSHConnection._send_kexinit,
                   C.SSHConnection.send_newkeys, C.SSHConnection._process_kexinit, C.SSHConnection._process_newkeys],
-       bounds='5 (thorough 7) events from {send channel data, send global request, local rekey, our NEWKEYS, peer KEXINIT, peer NEWKEYS}; rekey threshold 1 byte / 40 bytes / never'),
+       bounds='5 (thorough 6) events from {send channel data, send global request, local rekey, our NEWKEYS, peer KEXINIT, peer NEWKEYS}; rekey threshold 1 byte / 40 bytes / never'),
     Ob('newkeys_state', newkeys_state, sym=dict(first=B), shards=dict(server=[True, False]), timeout=90,
        functions=[C.SSHConnection.send_newkeys, C.SSHConnection._process_newkeys],
        bounds='first exchange or re-exchange, both roles'),
@@ -339,7 +339,7 @@ MANIFEST = dict(
     engines='A',
     technique='bounded symbolic execution (CrossHair/z3) of the real send gate, deferred-packet queue and NEWKEYS handling over symbolic event histories with stubbed key exchange and tagged ciphers',
     text='Bounded symbolic verification of re-keying: one send_packet step for every packet type and gate state (only transport/kex messages '
-         'are written during an exchange, the rest is queued unchanged, KEXINIT first when the threshold is reached); histories of 7 events from '
+         'are written during an exchange, the rest is queued unchanged, KEXINIT first when the threshold is reached); histories of 5-6 events from '
          '{application sends, local rekey, our NEWKEYS, peer KEXINIT, peer NEWKEYS} with rekey thresholds down to one packet - application packets reach '
          'the wire exactly once and in order, none between our KEXINIT and NEWKEYS; NEWKEYS keeps the session id, switches send keys, stages receive keys '
          'until the peer\'s NEWKEYS, derives both from the new (k,h) with the right letters; three consecutive exchanges with any initiator each get '
